@@ -176,7 +176,12 @@ Inductive hop :=
 | HRename (i q : nat) (n : T)                    (* store[i].columns[q].name = n *)
 | HSetAliases (i q : nat) (al : option (list T)) (* store[i].columns[q].aliases = al *)
 | HInsertFrom (i p j q : nat)                    (* store[i].columns.insert(p, store[j].columns[q]) *)
-| HDelAt (i p : nat).                            (* del store[i].columns[p] *)
+| HDelAt (i p : nat)                             (* del store[i].columns[p] *)
+(* round 7: the union taken through the augmented-assignment operator: `acc = store[i]; acc += store[j];
+   store.append(acc)` (also operator.iadd).  RelationSchema defines no __iadd__, so Python evaluates
+   `acc = acc + store[j]`; the SPECIFICATION of the step is the non-mutating union in any case: the object
+   store[i] is still referenced (by the store, by a DataFrame) and the sum modifies neither operand. *)
+| HIAdd (i j : nat).
 
 Definition iters := list (list T).       (* per open iterator: the names still to be yielded *)
 
@@ -243,6 +248,7 @@ Definition hstep (sti : store * iters) (h : hop) : (store * iters) * out :=
       | Some s => if Nat.ltb p (length (scols s)) then ((set_nth st i (del_at p s), its), XDone)
                   else ((st, its), XRaise)
       end
+  | HIAdd i j => let '(st', x) := step st (OAdd i j) in ((st', its), x)
   end.
 
 (* after every call: what it returned and the column lists of ALL schemas *)
@@ -273,7 +279,7 @@ Arguments OPop {T}. Arguments OAllNames {T}. Arguments ONames {T}. Arguments OIt
 Arguments XNew {T P}. Arguments XCol {T P}. Arguments XNames {T P}. Arguments XRaise {T P}. Arguments XBad {T P}.
 Arguments XOpened {T P}. Arguments XItem {T P}. Arguments XStop {T P}. Arguments XCols {T P}. Arguments XDone {T P}.
 Arguments HOp {T}. Arguments HOpen {T}. Arguments HNext {T}. Arguments HTable {T}. Arguments HRename {T}.
-Arguments HSetAliases {T}. Arguments HInsertFrom {T}. Arguments HDelAt {T}.
+Arguments HSetAliases {T}. Arguments HInsertFrom {T}. Arguments HDelAt {T}. Arguments HIAdd {T}.
 Arguments set_name {I T P}. Arguments set_aliases {I T P}. Arguments upd_col {I T P}. Arguments insert_at {I T P}.
 Arguments del_at {I T P}. Arguments lookup_table {I T P}. Arguments with_col {I T P}.
 Arguments set_it {T}. Arguments hstep {I T P}. Arguments hrun {I T P}. Arguments drop_loop {I T P}.
